@@ -60,3 +60,17 @@ for _p, _q, _t in [("C02", 400, 60000), ("C05", 400, 60000), ("C06", 400, 60000)
                    ("C09", 400, 60000), ("C10", 400, 60000), ("C11", 400, 60000), ("C12", 400, 60000), ("C13", 400, 60000),
                    ("C15", 400, 60000)]:
     CAMPAIGNS[_p] = {"variants": [V("full", _q, 90, _t, 1800)], "rule": FULL_RULE, "expect_probes": [], "shrink_s": {"quick": 60, "thorough": 300}}
+
+CAMPAIGNS["C19"] = {"variants": [V("config", 1600, 60, 120000, 1500)],
+    "rule": ("one evaluation = one simulated run of a seeded sequence of 5-35 ConfigMap/Secret create/update/delete/resync events (YAML or JSON payloads per config "
+             "kind with every field absent/zero/non-zero, malformed keys, wrong-typed fields, non-base64 secrets, unknown keys) against the real ConfigManager, "
+             "DefaultsLoader, ConfigMapLoader and SecretLoader with the real client-go informers they create, inside the virtual-time bubble; all three configs are read "
+             "after every event and compared field by field with a layered last-known-good reference model. Non-trivial = more than 3 comparisons and at least one in which "
+             "a ConfigMap/Secret layer set a field; distinct = distinct event-sequence hashes."),
+    "expect_probes": ["config.malformed", "mon.c19.undecodable"], "shrink_s": {"quick": 45, "thorough": 200}}
+
+CAMPAIGNS["C20"] = {"variants": [V("full", 800, 90, 40000, 1800)],
+    "rule": FULL_RULE + " For C20 every evaluation executes the plan twice - a fault-free twin (fair scheduler, no faults) and the faulty run - and compares the "
+            "observable outcome (scheduled Jobs created, per-Job result, Pods created per Job, TTL deletions, final JobConfig active/queued) modulo time, with all safety "
+            "monitors of C02, C05-C13 armed in both.",
+    "expect_probes": ["api.drop", "api.lostack", "api.conflict"], "shrink_s": {"quick": 60, "thorough": 300}}
